@@ -404,7 +404,7 @@ class Names:
     def fresh(self, shape: str, private: bool = False) -> str:
         k = self.num()
         base = {"func": ["calc_value_", "run", "get_x_y_", "doIt", "f"],
-                "cls": ["Widget", "data_holder_", "HTTPServer", "C"],
+                "cls": ["Widget", "DataHolder", "HTTPServer", "C"],
                 "attr": ["count_", "max_val_", "a", "someAttr"],
                 "param": ["p", "arg_", "some_param_", "x"],
                 "enum": ["Color", "mode_kind_"],
@@ -449,6 +449,12 @@ def gen_ann(rng: random.Random, depth: int, refs: list[Ann], allow_none_top=True
     if k in ("union", "bar"):
         n = rng.randrange(2, 4)
         args = [sub() for _ in range(n)]
+        if rng.random() < 0.25:
+            # two members that are written differently but mean the same: X[A | B] and X[B | A]
+            a, b = Ann(rng.choice(BASE_ANN)), Ann(rng.choice(["None", "str", "float"]))
+            if a.kind != b.kind:
+                outer1, outer2 = rng.choice([("list", "list"), ("list", "sequence"), ("set", "set"), ("collection", "list")])
+                args = [Ann(outer1, [Ann("union", [a, b])]), Ann(outer2, [Ann("union", [b, a])])] + args[:1]
         if rng.random() < 0.3:
             args.append(Ann("None"))
         # `X | Y` on a string forward reference or Callable needs care: keep members simple for the bar form
@@ -604,7 +610,9 @@ def gen_func(rng, names: Names, refs, tvs, *, private=False, deco="plain", docs=
         f.body = "pass"       # neither annotation nor inferable return
         f.inferred = []
     else:
-        f.ret = gen_ann(rng, 2, refs, tvs=tvs)
+        # a type variable in the result only if a parameter mentions it (mypy rejects the other case)
+        has_tv = any(a.kind == "typevar" for p in f.params if p.ann for a in p.ann.walk())
+        f.ret = gen_ann(rng, 2, refs, tvs=tvs if has_tv else None)
     if docs and rng.random() < 0.6:
         f.doc = f"Doc of {f.name}. Line one."
         if rng.random() < 0.4:
@@ -628,11 +636,20 @@ def gen_class(rng, names: Names, refs, tvs, *, private=False, depth=1, docs=True
     if rng.random() < 0.6:
         ps = gen_params(rng, names, refs, tvs, maxn=3, keywords=keywords)
         body = []
+        pending = []
         for p in ps:
             if p.kind in ("pos", "posonly", "kwonly") and rng.random() < 0.7:
                 an = names.fresh("attr", rng.random() < 0.2)
                 c.attrs.append(Attr(an, p.ann, p.name, instance=True))
-                body.append(f"self.{an} = {p.name}")
+                pending.append((an, p.name))
+        # some assignments by tuple unpacking: `self.a, self.b = x, y`
+        while pending:
+            if len(pending) >= 2 and rng.random() < 0.4:
+                (a1, v1), (a2, v2) = pending.pop(0), pending.pop(0)
+                body.append(f"self.{a1}, self.{a2} = {v1}, {v2}")
+            else:
+                a1, v1 = pending.pop(0)
+                body.append(f"self.{a1} = {v1}")
         init = Func("__init__", ps, ret_none=True, body="\n".join(body) or "pass")
         c.init = init
     for _ in range(rng.randrange(0, 4)):
@@ -668,6 +685,12 @@ def gen_package(rng: random.Random, idx: int, *, style="plaintext", nmods=3, ree
         tv = names.fresh("tv")
         m.typevars = [tv]
         refs_here: list[Ann] = []
+        if cross_refs and all_public_classes and rng.random() < 0.6:
+            # refer to public classes of earlier public modules (imported by their defining module path)
+            for r in rng.sample(all_public_classes, min(len(all_public_classes), rng.randrange(1, 3))):
+                m.imports.append(f"from {r.module} import {r.name}")
+                refs_here.append(r)
+        imported_here = list(refs_here)
         # classes first so that functions can refer to them
         for _ in range(rng.randrange(1, 4)):
             c = gen_class(rng, names, refs_here if cross_refs else [], [tv], private=rng.random() < 0.2, docs=docs, keywords=keywords)
@@ -689,7 +712,7 @@ def gen_package(rng: random.Random, idx: int, *, style="plaintext", nmods=3, ree
                                     keywords=keywords))
         mods.append(m)
         if not private_mod:
-            all_public_classes += refs_here
+            all_public_classes += [r for r in refs_here if r not in imported_here]
     # re-exports: only declarations that reference builtins (A32 is a recorded finding region)
     if reexports:
         for m in mods:
@@ -708,4 +731,18 @@ def gen_package(rng: random.Random, idx: int, *, style="plaintext", nmods=3, ree
                 else:
                     init.lines.append(f"from .{modname} import {f.name}")
                     init.reexports.append(("name", m.dotted, f.name, None))
+    # suffix stress: a private declaration whose name is a suffix of a re-exported name lives in another module of the
+    # same package; the unchanged tool tells them apart by the qualified name
+    for init in inits:
+        for kind, moddotted, fname, alias in list(init.reexports):
+            parts = fname.rsplit("_", 1)
+            if len(parts) == 2 and parts[1] and rng.random() < 0.8:
+                others = [m for m in mods if m.dotted != moddotted and m.dotted.rsplit(".", 1)[0] == init.dotted]
+                if others:
+                    om = rng.choice(others)
+                    pname = "_" + parts[1]
+                    if rng.random() < 0.5 or not om.classes:
+                        om.funcs.append(Func(pname, [], ret=Ann("int")))
+                    else:
+                        om.classes[0].methods.append(Func(pname, [], ret=Ann("int")))
     return Package(root, mods, inits, style)
